@@ -470,6 +470,9 @@ def evmFromCsv (utf8 : Bool) (parts : List (Bool × Bool)) : Res Unit Unit :=
 /-- `Network::new_custom` (the `evm-custom` sub-command of antnode / antctl) -/
 def evmNewCustom (urlOk tokOk payOk : Bool) : Res Unit Unit := customNetwork newCustomChecked urlOk tokOk payOk
 
+/-- `evmlib::utils::get_evm_network` (called by the wasm bindings with values typed on a web page) -/
+def evmGetNetwork (urlOk tokOk payOk : Bool) : Res Unit Unit := customNetwork getEvmNetworkChecked urlOk tokOk payOk
+
 /-! ### nat-detection's server address, the metrics tool's log scan -/
 
 /-- `parse_peer_addr`: a socket address, else a multiaddr, else an error (both parsers abstract) -/
